@@ -50,6 +50,20 @@ func renderQuery(o *obligation, withModel bool, extra []string) string {
 	for _, a := range lits {
 		collectAtoms(a, needed)
 	}
+	var strExt []*T
+	for _, f := range c.strExt {
+		at := map[string]bool{}
+		collectAtoms(f, at)
+		ok := true
+		for n := range at {
+			if _, isConst := c.d.consts[n]; isConst && !needed[n] {
+				ok = false
+			}
+		}
+		if ok {
+			strExt = append(strExt, f)
+		}
+	}
 	for i := len(o.pc) - 1; i >= 0; i-- {
 		a := o.pc[i]
 		if n, d := isDef(a); d {
@@ -107,6 +121,11 @@ func renderQuery(o *obligation, withModel bool, extra []string) string {
 		}
 	}
 	for _, a := range lits {
+		sb.WriteString("(assert ")
+		a.write(&sb)
+		sb.WriteString(")\n")
+	}
+	for _, a := range strExt {
 		sb.WriteString("(assert ")
 		a.write(&sb)
 		sb.WriteString(")\n")
